@@ -178,7 +178,7 @@ fn classify(d: &Diff, f: &Fwd, file_key: &[u8], n_objects: u32) -> String {
 fn forward_section(rep: &mut Report, thorough: bool) {
     let skipped = AtomicU64::new(0);
     let compared = AtomicU64::new(0);
-    let n_pw = 6;
+    let n_pw = 8;
     rep.explore("forward", Explore::dev(if thorough { 2 } else { 1 }), |c: &mut Ctx| {
         let scheme = *c.pick_from("scheme", &Scheme::ALL);
         let layout = c.choose("layout", 3);
@@ -272,6 +272,11 @@ fn forward_section(rep: &mut Report, thorough: bool) {
                     // known signature: non-ASCII password of an R2-R4 file is hashed as UTF-8 by the library
                     let non_ascii = !pw.is_ascii();
                     let mut key = format!("C06/{role}-password-refused");
+                    // known signature: R5/R6 keep the first 127 bytes of a password (ISO 32000-2 7.6.4.3.2);
+                    // the library hashes all of them (R5) or gives up (R6) - but accepts the 127-byte prefix
+                    if scheme.revision() >= 5 && pw.len() > 127 && pw.is_char_boundary(127) && enc::lib_open(&e.bytes, Some(&pw[..127])).is_ok() {
+                        key = "C06/r5-r6-password-over-127-bytes-not-truncated".into();
+                    }
                     if non_ascii && scheme.revision() <= 4 && err.starts_with("unlock") {
                         let mut s2 = s.clone();
                         s2.user_pw = user.as_bytes().to_vec();
@@ -328,6 +333,52 @@ fn forward_section(rep: &mut Report, thorough: bool) {
     rep.note("forward_cells_skipped_plaintext_original_unreadable", json!(skipped.load(Ordering::Relaxed)));
 }
 
+/// R5/R6 with a dense seed menu. The hash of revision 6 (Algorithm 2.B) has data-dependent
+/// control flow (round count, hash selection) that depends on password AND salt, so a defect
+/// can sit in a few percent of the (password, salt) pairs only; one execution evaluates it
+/// for four pairs (user/owner x validation/key salt). FULL over scheme x seed x password.
+fn forward_seeds_section(rep: &mut Report, thorough: bool) {
+    let n_seeds: usize = if thorough { 256 } else { 64 };
+    const PW: [usize; 3] = [0, 2, 4]; // ascii, non-ascii, 127 bytes
+    rep.explore("forward-r56-seeds", Explore::full(), |c: &mut Ctx| {
+        let scheme = *c.pick_from("scheme", &[Scheme::R6, Scheme::R5]);
+        let pwk = *c.pick_from("passwords", &PW);
+        let seed = c.choose("seed", n_seeds) as u64;
+        c.input(vx::h64(&(scheme, pwk, seed)));
+        c.nontrivial();
+        let (user, owner) = password_pair(pwk);
+        let tag = format!("{} classic-table passwords={} seed={seed}", scheme.name(), encdoc::PASSWORD_NAMES[pwk]);
+        c.sample(json!({"case": tag}));
+        let objs = doc_objects(0);
+        let mut s = rc::EncSettings::new(scheme, user.as_bytes(), owner.as_bytes());
+        s.seed = seed.wrapping_mul(0x9E37_79B9).wrapping_add(7);
+        s.info = Some(7);
+        let e = rc::encrypt_file_ex(&objs, &s);
+        let mut oh = 0u64;
+        for (pw, role) in [(&user, "user"), (&owner, "owner")] {
+            match enc::lib_open(&e.bytes, Some(pw)) {
+                Ok(l) => {
+                    // the file key is right when a string and a stream decrypt to the original
+                    let info_ok = match &l.info {
+                        Some(Obj::Ref(n, g)) => l.get(*n, *g).ok().and_then(|o| o.dict_get("Producer").and_then(|p| p.as_str_bytes().map(|b| b == b"refpdf"))).unwrap_or(false),
+                        _ => false,
+                    };
+                    let text_ok = matches!(enc::lib_text_and_metadata(&l), Ok((t, _)) if t.iter().any(|x| x.contains("Hello C06 plain text")));
+                    if !info_ok || !text_ok {
+                        oh = vx::hmix(oh, 2);
+                        c.fail("C06/r56-unlocked-but-content-wrong", format!("{tag} ({role} password): info string ok={info_ok} page text ok={text_ok}"));
+                    }
+                }
+                Err(err) => {
+                    oh = vx::hmix(oh, 1);
+                    c.fail(format!("C06/r56-{role}-password-refused-for-some-salts"), format!("{tag}: {role} password {pw:?}: {err}"));
+                }
+            }
+        }
+        c.outcome(oh);
+    });
+}
+
 fn reverse_section(rep: &mut Report, thorough: bool) {
     let skipped = AtomicU64::new(0);
     let compared = AtomicU64::new(0);
@@ -336,20 +387,16 @@ fn reverse_section(rep: &mut Report, thorough: bool) {
         let xs = c.flag("xref_stream");
         let os = c.flag("object_streams");
         let comp = !c.flag("no_compression");
-        let slow = xs && os; // see C05: seconds per file in the library's writer/reader
-        let (m_pw, m_c, m_s) = match (slow, thorough) {
-            (true, false) => (1, 1, 1),
-            (true, true) => (3, 2, 1),
-            (false, _) => (6, 3, 2),
-        };
-        let pwk = c.choose_dev("passwords", m_pw);
-        let ck = c.choose_dev("content", m_c);
-        let seed = [1u64, 2][c.choose_dev("seed", m_s)];
-        c.input(vx::h64(&(s, xs, os, comp, pwk, ck, seed)));
+        let pwk = c.choose_dev("passwords", 8);
+        let ck = c.choose_dev("content", 3);
+        let seed = [1u64, 2][c.choose_dev("seed", 2)];
+        let pk = c.choose_dev("permissions", 5);
+        c.input(vx::h64(&(s, xs, os, comp, pwk, ck, seed, pk)));
         let cfg = encdoc::config(xs, os, comp);
         let (user, owner) = encdoc::password_pair(pwk);
-        let perms = oxidize_pdf::encryption::Permissions::all();
-        let tag = format!("{} xref_stream={xs} object_streams={os} compress={comp} passwords={} content={} seed={seed}", encdoc::STRENGTHS[s].1, encdoc::PASSWORD_NAMES[pwk], encdoc::CONTENT_NAMES[ck]);
+        // all permissions, or a raw /P value whose reserved bits are not in canonical form
+        let perms = if pk == 0 { oxidize_pdf::encryption::Permissions::all() } else { oxidize_pdf::encryption::Permissions::from_bits(encdoc::RAW_PERMS[pk - 1]) };
+        let tag = format!("{} xref_stream={xs} object_streams={os} compress={comp} passwords={} permissions={:#010x} content={} seed={seed}", encdoc::STRENGTHS[s].1, encdoc::PASSWORD_NAMES[pwk], perms.bits(), encdoc::CONTENT_NAMES[ck]);
         c.sample(json!({"case": tag}));
         let base = match encdoc::baseline(ck, &cfg) {
             Ok(b) => b,
@@ -398,12 +445,14 @@ pub fn run(rep: &mut Report) {
     rep.rule(
         "forward: one execution = (scheme, layout, EncryptMetadata) in FULL with at most k non-default choices among (password pair, P, content, \
          direct/indirect /Encrypt, Identity crypt filter on metadata, seed); reverse: (strength, writer configuration) in FULL with at most k non-default \
-         choices among (password pair, content, seed); non-trivial = the plaintext original is readable by the library, so the encrypted file was compared",
+         choices among (password pair, permission value incl. non-canonical raw /P, content, seed); forward-r56-seeds: R5/R6 x 3 password pairs x every seed 0..63 \
+         (thorough 0..255) in FULL - the seed menu is a bound: salts and file keys are a deterministic function of the seed, other salts are not covered; non-trivial = the plaintext original is readable by the library, so the encrypted file was compared",
     );
     rep.assume("refpdf::crypto stands in for qpdf: it decrypts all 28 qpdf/pypdf fixtures; its writer round-trips through its reader for every scheme/layout (unit tests)");
     rep.assume("object streams written by the reference follow ISO 32000-1 7.5.7/7.6.2: strings inside are not encrypted individually, the object stream is encrypted as a stream");
     rep.assume("passwords of R2-R4 files are PDFDocEncoding bytes, of R5/R6 files UTF-8 bytes (SASLprep-stable characters only)");
     rep.assume("the plaintext original (same layout, not encrypted) as read by the library defines 'same objects, text and metadata'");
     forward_section(rep, thorough);
+    forward_seeds_section(rep, thorough);
     reverse_section(rep, thorough);
 }
